@@ -106,9 +106,9 @@ frecipe('KullbackLeiblerCrossEntropy', ('rn', 'discr'), 'trans', [DEF + 'Kullbac
 frecipe('KullbackLeiblerCrossEntropyConvexConj', ('rn', 'discr'), 'trans',
         [DEF + 'KullbackLeiblerCrossEntropyConvexConj'])(
     lambda ctx, sp: S.KullbackLeiblerCrossEntropy(sp, prior=sp.element([1.0, 2.0][:sp.size])).convex_conj)
-frecipe('SeparableSum/L1+L2sq', ('rn', 'discr'), 'pl', [DEF + 'SeparableSum'])(
+frecipe('SeparableSum/L1+L2sq', ('rn', 'discr'), 'pl', [DEF + 'SeparableSum'], n=1)(
     lambda ctx, sp: S.SeparableSum(S.L1Norm(sp), S.L2NormSquared(sp)))
-frecipe('SeparableSum/power', ('rn',), 'pl', [DEF + 'SeparableSum'])(
+frecipe('SeparableSum/power', ('rn',), 'pl', [DEF + 'SeparableSum'], n=1)(
     lambda ctx, sp: S.SeparableSum(S.L1Norm(sp), 2))
 frecipe('QuadraticForm/op+vec', ('rn', 'arn'), 'pl', [DEF + 'QuadraticForm'])(
     lambda ctx, sp: S.QuadraticForm(
@@ -128,54 +128,54 @@ frecipe('IndicatorSimplex/diam2', ('rn',), 'ind', [DEF + 'IndicatorSimplex'])(
     lambda ctx, sp: S.IndicatorSimplex(sp, diameter=2))
 frecipe('IndicatorSumConstraint', ('rn',), 'ind', [DEF + 'IndicatorSumConstraint'])(
     lambda ctx, sp: S.IndicatorSumConstraint(sp))
-frecipe('MoreauEnvelope/L1', ('rn', 'discr'), 'pl', [DEF + 'MoreauEnvelope'])(
+frecipe('MoreauEnvelope/L1', ('rn', 'discr'), 'pl', [DEF + 'MoreauEnvelope'], n=1)(
     lambda ctx, sp: S.MoreauEnvelope(S.L1Norm(sp), sigma=0.5))
 frecipe('Rosenbrock', ('rn',), 'pl', ['odl.solvers.functional.example_funcs.RosenbrockFunctional'])(
     lambda ctx, sp: S.RosenbrockFunctional(sp))
 
 # --------------------------------------------------------- derived functionals
-frecipe('derived/2*L1', ALLS, 'pl', [FUN + 'FunctionalLeftScalarMult'])(lambda ctx, sp: 2.0 * S.L1Norm(sp))
-frecipe('derived/a*L1', ('rn',), 'pl', [FUN + 'FunctionalLeftScalarMult'])(
+frecipe('derived/2*L1', ALLS, 'pl', [FUN + 'FunctionalLeftScalarMult'], n=1)(lambda ctx, sp: 2.0 * S.L1Norm(sp))
+frecipe('derived/a*L1', ('rn',), 'pl', [FUN + 'FunctionalLeftScalarMult'], n=1)(
     lambda ctx, sp: ctx.real('c0', pos=True) * S.L1Norm(sp))
 frecipe('derived/a*L2sq', ('rn', 'discr'), 'pl', [FUN + 'FunctionalLeftScalarMult'])(
     lambda ctx, sp: ctx.real('c0', pos=True) * S.L2NormSquared(sp))
 frecipe('derived/(-3)*L2sq', ('rn', 'discr'), 'pl', [FUN + 'FunctionalLeftScalarMult'])(
     lambda ctx, sp: (-3.0) * S.L2NormSquared(sp))
-frecipe('derived/L2sq-Huber', ('rn',), 'pl', [FUN + 'FunctionalSum'])(
+frecipe('derived/L2sq-Huber', ('rn',), 'pl', [FUN + 'FunctionalSum'], n=1)(
     lambda ctx, sp: S.L2NormSquared(sp) - S.Huber(sp, 0.5))
-frecipe('derived/a*Huber/any-sign', ('rn',), 'pl', [FUN + 'FunctionalLeftScalarMult'])(
+frecipe('derived/a*Huber/any-sign', ('rn',), 'pl', [FUN + 'FunctionalLeftScalarMult'], n=1)(
     lambda ctx, sp: ctx.real('c0', nonzero=True) * S.Huber(sp, 0.5))
-frecipe('derived/L1*2', ALLS, 'pl', [FUN + 'FunctionalRightScalarMult'])(lambda ctx, sp: S.L1Norm(sp) * 2.0)
+frecipe('derived/L1*2', ALLS, 'pl', [FUN + 'FunctionalRightScalarMult'], n=1)(lambda ctx, sp: S.L1Norm(sp) * 2.0)
 frecipe('derived/L2sq*a', ('rn', 'discr'), 'pl', [FUN + 'FunctionalRightScalarMult'])(
     lambda ctx, sp: S.L2NormSquared(sp) * ctx.real('c0', nonzero=True))
-frecipe('derived/Huber*(-2)', ('rn',), 'pl', [FUN + 'FunctionalRightScalarMult'])(
+frecipe('derived/Huber*(-2)', ('rn',), 'pl', [FUN + 'FunctionalRightScalarMult'], n=1)(
     lambda ctx, sp: S.Huber(sp, 0.5) * (-2.0))
-frecipe('derived/L1.translated', ALLS, 'pl', [FUN + 'FunctionalTranslation'])(
+frecipe('derived/L1.translated', ALLS, 'pl', [FUN + 'FunctionalTranslation'], n=1)(
     lambda ctx, sp: S.L1Norm(sp).translated(ctx.element(sp, 't')))
 frecipe('derived/L2sq.translated', ('rn', 'discr'), 'pl', [FUN + 'FunctionalTranslation'])(
     lambda ctx, sp: S.L2NormSquared(sp).translated(ctx.element(sp, 't')))
-frecipe('derived/Box.translated', ('rn',), 'ind', [FUN + 'FunctionalTranslation'])(
+frecipe('derived/Box.translated', ('rn',), 'ind', [FUN + 'FunctionalTranslation'], n=1)(
     lambda ctx, sp: S.IndicatorBox(sp, -1, 2).translated(ctx.element(sp, 't')))
-frecipe('derived/L1+c', ('rn', 'discr'), 'pl', [FUN + 'FunctionalScalarSum'])(
+frecipe('derived/L1+c', ('rn', 'discr'), 'pl', [FUN + 'FunctionalScalarSum'], n=1)(
     lambda ctx, sp: S.L1Norm(sp) + ctx.real('c0'))
-frecipe('derived/L2sq+L1', ('rn', 'discr'), 'pl', [FUN + 'FunctionalSum'])(
+frecipe('derived/L2sq+L1', ('rn', 'discr'), 'pl', [FUN + 'FunctionalSum'], n=1)(
     lambda ctx, sp: S.L2NormSquared(sp) + S.L1Norm(sp))
-frecipe('derived/L2sq+Huber', ('rn',), 'pl', [FUN + 'FunctionalSum'])(
+frecipe('derived/L2sq+Huber', ('rn',), 'pl', [FUN + 'FunctionalSum'], n=1)(
     lambda ctx, sp: S.L2NormSquared(sp) + S.Huber(sp, 0.5))
 frecipe('derived/L2sq*v', ('rn', 'discr'), 'pl', [FUN + 'FunctionalRightVectorMult'])(
     lambda ctx, sp: S.L2NormSquared(sp) * sp.element([2.0, -0.5][:sp.size]))
-frecipe('derived/L1*v', ('rn',), 'pl', [FUN + 'FunctionalRightVectorMult'])(
-    lambda ctx, sp: S.L1Norm(sp) * sp.element([2.0, -0.5]))
+frecipe('derived/L1*v', ('rn',), 'pl', [FUN + 'FunctionalRightVectorMult'], n=1)(
+    lambda ctx, sp: S.L1Norm(sp) * sp.element([2.0, -0.5][:sp.size]))
 frecipe('derived/L2sq∘M', ('rn', 'arn'), 'pl', [FUN + 'FunctionalComp'])(
     lambda ctx, sp: S.L2NormSquared(sp) * odl.MatrixOperator(np.array([[1.0, 2.0], [0.0, -1.0]]), domain=sp, range=sp))
-frecipe('derived/L1∘scaling', ('rn', 'discr'), 'pl', [FUN + 'FunctionalComp'])(
+frecipe('derived/L1∘scaling', ('rn', 'discr'), 'pl', [FUN + 'FunctionalComp'], n=1)(
     lambda ctx, sp: S.L1Norm(sp) * odl.ScalingOperator(sp, 2.0))
-frecipe('derived/quadpert(L1)', ('rn', 'discr'), 'pl', [FUN + 'FunctionalQuadraticPerturb'])(
+frecipe('derived/quadpert(L1)', ('rn', 'discr'), 'pl', [FUN + 'FunctionalQuadraticPerturb'], n=1)(
     lambda ctx, sp: S.FunctionalQuadraticPerturb(S.L1Norm(sp), quadratic_coeff=0.5,
                                                  linear_term=sp.element([1.0, -1.0][:sp.size]), constant=2.0))
 frecipe('derived/quadpert(L2sq)/linear-only', ('rn',), 'pl', [FUN + 'FunctionalQuadraticPerturb'])(
     lambda ctx, sp: S.FunctionalQuadraticPerturb(S.L2NormSquared(sp), linear_term=ctx.element(sp, 't')))
-frecipe('derived/quadpert(Box)', ('rn',), 'ind', [FUN + 'FunctionalQuadraticPerturb'])(
+frecipe('derived/quadpert(Box)', ('rn',), 'pl', [FUN + 'FunctionalQuadraticPerturb'], n=1)(
     lambda ctx, sp: S.FunctionalQuadraticPerturb(S.IndicatorBox(sp, -1, 2), quadratic_coeff=1.5))
 frecipe('derived/product', ('rn',), 'pl', [FUN + 'FunctionalProduct'])(
     lambda ctx, sp: S.FunctionalProduct(S.L2NormSquared(sp), S.QuadraticForm(vector=sp.element([1.0, -2.0]),
@@ -184,19 +184,20 @@ frecipe('derived/quotient', ('rn',), 'pl', [FUN + 'FunctionalQuotient'],
         pre=None)(
     lambda ctx, sp: S.FunctionalQuotient(S.QuadraticForm(vector=sp.element([1.0, -2.0]), constant=1.0),
                                          S.L2NormSquared(sp) + 1.0))
-frecipe('derived/infconv(L2sq,L1)', ('rn',), 'pl', [FUN + 'InfimalConvolution'])(
+frecipe('derived/infconv(L2sq,L1)', ('rn',), 'pl', [FUN + 'InfimalConvolution'], n=1)(
     lambda ctx, sp: S.InfimalConvolution(S.L2NormSquared(sp), S.L1Norm(sp)))
 frecipe('derived/Bregman(L2sq)', ('rn', 'discr'), 'pl', [FUN + 'BregmanDistance'])(
     lambda ctx, sp: _bregman_l2sq(ctx, sp))
-frecipe('derived/Bregman(L1,subgrad)', ('rn',), 'pl', [FUN + 'BregmanDistance'])(
-    lambda ctx, sp: S.BregmanDistance(S.L1Norm(sp), sp.element([1.0, -2.0]), subgrad=sp.element([1.0, -1.0])))
+frecipe('derived/Bregman(L1,subgrad)', ('rn',), 'pl', [FUN + 'BregmanDistance'], n=1)(
+    lambda ctx, sp: S.BregmanDistance(S.L1Norm(sp), sp.element([1.0, -2.0][:sp.size]),
+                                     subgrad=sp.element([1.0, -1.0][:sp.size])))
 frecipe('derived/L1.convex_conj', ('rn', 'discr'), 'ind', [DEF + 'IndicatorLpUnitBall'])(
     lambda ctx, sp: S.L1Norm(sp).convex_conj)
 frecipe('derived/L2sq.convex_conj', ALLS, 'pl', [DEF + 'L2NormSquared'])(
     lambda ctx, sp: S.L2NormSquared(sp).convex_conj)
-frecipe('derived/Huber.convex_conj', ('rn',), 'pl', [FUN + 'FunctionalQuadraticPerturb'])(
+frecipe('derived/Huber.convex_conj', ('rn',), 'pl', [FUN + 'FunctionalQuadraticPerturb'], n=1)(
     lambda ctx, sp: S.Huber(sp, 0.5).convex_conj)
-frecipe('derived/default-conj(L2sq+L1)', ('rn',), 'pl', [FUN + 'FunctionalDefaultConvexConjugate'])(
+frecipe('derived/default-conj(L2sq+L1)', ('rn',), 'pl', [FUN + 'FunctionalDefaultConvexConjugate'], n=1)(
     lambda ctx, sp: (S.L2NormSquared(sp) + S.L1Norm(sp)).convex_conj)
 
 def _bregman_l2sq(ctx, sp):
@@ -222,9 +223,9 @@ def instances(tier, want=None):
     return out
 
 
-def build(ctx, name, sk):
+def build(ctx, name, sk, n=None):
     r = fby_name(name)
-    sp = None if sk == 'field' else space(sk, r.n)
+    sp = None if sk == 'field' else space(sk, n if n is not None else r.n)
     return r, r.build(ctx, sp)
 
 
